@@ -1,6 +1,7 @@
 package osutil
 
 import (
+	"errors"
 	"io"
 	"os"
 )
@@ -18,6 +19,14 @@ func CopyFile(srcPath, destPath string) (int64, error) {
 		return 0, err
 	}
 	defer src.Close()
+
+	// creating the destination truncates it: refuse if it is the source itself
+	// (same path, another spelling, symbolic link or hard link)
+	if destInfo, err := os.Stat(destPath); err == nil {
+		if srcInfo, err := src.Stat(); err == nil && os.SameFile(srcInfo, destInfo) {
+			return 0, errors.New("osutil: CopyFile: " + srcPath + " and " + destPath + " are the same file")
+		}
+	}
 
 	dest, err := os.Create(destPath)
 	if err != nil {
